@@ -481,3 +481,83 @@ func RunMemoKey(p *Prog, r *Report) {
 		r.Fail("UNRESOLVED", "-", "-", "memo-key sites", "-", fmt.Sprintf("%d keyed accesses with a struct operand in IsBoolean / MarkBoolean, confirmed 2 (sparse builder)", n))
 	}
 }
+
+// MEMO-ARGS (flow areas): a function that memoises a value it computes — `if v, ok := table[k]; ok { return v };
+// v = g(...); table[k] = v` — must key the table by everything the computation takes from the function's own
+// scalar parameters: a number that shapes the value but is not part of the key makes a later call with another
+// number receive the first call's value.
+func RunMemoArgs(p *Prog, r *Report, scope func(string) bool) {
+	const rule = "MEMO-ARGS"
+	basic := func(t types.Type) bool {
+		b, ok := t.Underlying().(*types.Basic)
+		return ok && b.Info()&(types.IsInteger|types.IsString|types.IsBoolean) != 0
+	}
+	n := 0
+	for _, fn := range p.Funcs {
+		pk := FuncPkg(fn)
+		if pk == nil || !scope(pk.Path()) || len(fn.Blocks) == 0 || fn.Parent() != nil {
+			continue
+		}
+		if o := fn.Origin(); o != nil && o != fn {
+			continue
+		}
+		// maps both looked up and updated in this function
+		looked := map[string]bool{}
+		for _, b := range fn.Blocks {
+			for _, ins := range b.Instrs {
+				if lk, ok := ins.(*ssa.Lookup); ok {
+					if _, isMap := lk.X.Type().Underlying().(*types.Map); isMap {
+						looked[Desc(lk.X)] = true
+					}
+				}
+			}
+		}
+		if len(looked) == 0 {
+			continue
+		}
+		ord := 0
+		for _, b := range fn.Blocks {
+			for _, ins := range b.Instrs {
+				mu, ok := ins.(*ssa.MapUpdate)
+				if !ok || !looked[Desc(mu.Map)] {
+					continue
+				}
+				// the memoised value is computed here: a call result (not a parameter handed through)
+				v := mu.Value
+				if mi, ok := v.(*ssa.MakeInterface); ok {
+					v = mi.X
+				}
+				if _, isCall := v.(*ssa.Call); !isCall {
+					if ex, ok := v.(*ssa.Extract); !ok {
+						continue
+					} else if _, isCall := ex.Tuple.(*ssa.Call); !isCall {
+						continue
+					}
+				}
+				sv := newSlicer()
+				sv.visit(v)
+				sk := newSlicer()
+				sk.visit(mu.Key)
+				var missing []string
+				for pm := range sv.params {
+					if pm.Parent() != fn || !basic(pm.Type()) {
+						continue
+					}
+					if !sk.params[pm] {
+						missing = append(missing, pm.Name())
+					}
+				}
+				sort.Strings(missing)
+				ord++
+				n++
+				key := fmt.Sprintf("memo#%d:%s", ord, Desc(mu.Map))
+				if len(missing) > 0 {
+					r.Fail(rule, pk.Path(), FuncName(fn), key, p.Pos(mu.Pos()), fmt.Sprintf("the memoised value depends on parameter(s) %v that are not part of the table key: a later call with a different value receives the entry computed for the first", missing))
+				} else {
+					r.Pass(rule, pk.Path(), FuncName(fn), key, p.Pos(mu.Pos()), "every scalar parameter the memoised value depends on is part of the key", true)
+				}
+			}
+		}
+	}
+	_ = n
+}
